@@ -59,12 +59,13 @@ LEVEL_NOTE = ('Trusted: openpyxl as the writer of test workbooks; the '
 
 CONFIGS = {
     'two': ['Sheet1', 'My Sheet'],
+    'dollar': ['Sheet1', 'US$'],
     'three': ['Sheet1', 'Data_2', "It's"],
     'quotedfirst': ['My Sheet', "It's", 'Sheet1'],
     'four': ['Sheet1', 'My Sheet', 'Data_2', "It's"],
 }
-TIER_CONFIGS = {'quick': ['two', 'three', 'quotedfirst'],
-                'thorough': ['two', 'three', 'quotedfirst', 'four']}
+TIER_CONFIGS = {'quick': ['two', 'three', 'quotedfirst', 'dollar'],
+                'thorough': ['two', 'three', 'quotedfirst', 'four', 'dollar']}
 PATTERNS = ('dense', 'single', 'empty', 'checker')
 FUNCS = ('SUM', 'COUNTA', 'CONCAT')
 
